@@ -182,6 +182,26 @@ void h_cpu_connect(void)
 	if (r != 0 && w_init) REACH("lower failure propagated");
 }
 
+/* cpu_create_pcf_types: declares exactly the types cpu_connect registers in the PRV (chan_type[i] >= 0) */
+int c_cpu_create_pcf_types(struct pcf *pcf)
+__CPROVER_requires(chan_type[CPU_CHAN_NRUN] == PRV_CPU_NRUN && chan_type[CPU_CHAN_PID] == PRV_CPU_PID && chan_type[CPU_CHAN_TID] == PRV_CPU_TID &&
+	chan_type[CPU_CHAN_THRUN] == -1 && chan_type[CPU_CHAN_THACT] == -1)
+__CPROVER_requires(g_k >= 0 && g_k < 3 && g_addtype_n == 0 && g_addval_n == 0 && DIAG_PRE && LOW_PRE)
+__CPROVER_assigns(PCF_FRAME, g_lowfail, DIAG_FRAME)
+__CPROVER_ensures((RV == 0) == (g_lowfail == OLD(g_lowfail)))
+__CPROVER_ensures(RV == 0 || (RV == -1 && g_err > OLD(g_err)))
+/* accepted: three declarations in this pcf, the k-th one being the type of the k-th registered row; no values */
+__CPROVER_ensures(RV != 0 || (g_addtype_n == 3 && g_t_id == CPU_TYPE(g_k) && g_t_id >= 0 && g_t_pcf == (void *) pcf && g_addval_n == 0))
+;
+void h_cpu_create_pcf_types(void)
+{
+	struct pcf *pcf;
+	int r = cpu_create_pcf_types(pcf);
+	if (r == 0 && g_k == 0) REACH("CPU types declared, first observed");
+	if (r == 0 && g_k == 2) REACH("CPU types declared, last observed");
+	if (r != 0) REACH("pcf_add_type failure propagated");
+}
+
 struct pcf_value *c_cpu_add_to_pcf_type(struct cpu *cpu, struct pcf_type *type)
 __CPROVER_requires(__CPROVER_is_fresh(cpu, sizeof(struct cpu)) && g_addval_n == 0 && LOW_PRE)
 /* gindex comes from init_global_indices: 0 <= gindex < ncpus <= INT_MAX */
